@@ -642,12 +642,11 @@ pub open spec fn stmt_post(o: Statement, n: Statement, table: LookupTable) -> bo
 //@ attr fn analyze
     #[verifier::exec_allows_no_decreases_clause]
 //@end
-//~assume `impl AnalyzeStatement for BlockStatement` (iter_mut().for_each) analyses every statement of the block in place (iterator code, outside Verus)
 //@extract spl_frontend/src/table/semantic.rs :: impl AnalyzeStatement for BlockStatement
+//@ rewrite block_statements_loop
 //@ open
     open spec fn post(o: Self, n: Self, table: LookupTable) -> bool { stmt_post(Statement::Block(o), Statement::Block(n), table) }
     open spec fn pre(&self) -> bool { stmt_wf(Statement::Block(*self)) }
-//@ assume_body fn analyze
 //@end
 //~assume (R6) the argument loop of CallStatement::analyze applies its body — verified separately as `call_argument_rule` — to argument i and parameter i, in order, for every i below both lengths, and touches nothing else
 #[verifier::external_body]
